@@ -282,6 +282,203 @@ fn check_one(sc: &Scenario, px: &(Vec<u8>, Vec<u8>), prefix: &[usize]) -> Result
     Ok((x, out, outcome))
 }
 
+// ---------------------------------------------------------------------------
+// Sequential part: every subscribe / unsubscribe point in a history (explicit-state BFS).
+
+#[derive(Clone, Debug)]
+enum SOp {
+    Insert { peer: u8, pfx: u8, attr: u32 },
+    Remove { peer: u8, pfx: u8 },
+    PeerDrop,
+    PolicyToggle,
+    SoftResetIn,
+    StartDeferral,
+    EndDeferral,
+    Subscribe,
+    Unsubscribe,
+}
+
+struct SeqModel {
+    ops: Vec<SOp>,
+    px: (Vec<u8>, Vec<u8>),
+}
+
+struct SeqSys {
+    tables: Arc<TableManager>,
+    sub: Option<Subscription>,
+    pre: BTreeMap<Key, String>,
+    post: BTreeMap<Key, String>,
+    policy_on: bool,
+    deferring: bool,
+    ever_deferred: bool,
+    b_gen: u8,
+    srcs: [Arc<table::Source>; 2],
+    broken: BTreeSet<String>,
+}
+
+impl crate::verif::vx::bfs::Model for SeqModel {
+    type Sys = SeqSys;
+    fn name(&self) -> String {
+        "c18-sequential".into()
+    }
+    fn n_ops(&self) -> usize {
+        self.ops.len()
+    }
+    fn op_name(&self, op: usize) -> String {
+        match &self.ops[op] {
+            SOp::Insert { peer, pfx, attr } => format!("insert({},{},attr{})", ["A", "B"][*peer as usize], ["P(shard0)", "Q(shard1)"][*pfx as usize], attr),
+            SOp::Remove { peer, pfx } => format!("remove({},{})", ["A", "B"][*peer as usize], ["P(shard0)", "Q(shard1)"][*pfx as usize]),
+            o => format!("{:?}", o),
+        }
+    }
+    fn init(&self) -> SeqSys {
+        SeqSys { tables: Arc::new(TableManager::new(2)), sub: None, pre: BTreeMap::new(), post: BTreeMap::new(), policy_on: false, deferring: false, ever_deferred: false, b_gen: 0, srcs: [src(1), src(2)], broken: BTreeSet::new() }
+    }
+    fn step(&self, sys: &mut SeqSys, op: usize, out: &mut Vec<(String, String)>) -> bool {
+        let netk = |pfx: u8| if pfx == 0 { self.px.0[0] } else { self.px.1[0] };
+        let name = self.op_name(op);
+        match &self.ops[op] {
+            SOp::Insert { peer, pfx, attr } => {
+                sys.tables.insert_route(sys.srcs[*peer as usize].clone(), Family::IPV4, packet::PathNlri::new(v4net(netk(*pfx))), nh(), attrs(*attr), None, 0);
+            }
+            SOp::Remove { peer, pfx } => {
+                sys.tables.remove_route(sys.srcs[*peer as usize].clone(), Family::IPV4, packet::PathNlri::new(v4net(netk(*pfx))), None, 0);
+            }
+            SOp::PeerDrop => {
+                if sys.b_gen >= 2 {
+                    return false;
+                }
+                let b = sys.srcs[1].clone();
+                sys.tables.unregister_peer(b.remote_addr, &[Family::IPV4], &[]);
+                sys.tables.peer_down(PeerDownData { peer_addr: b.remote_addr, peer_asn: b.remote_asn, peer_id: b.router_id, uptime: 0, reason: rustybgp_packet::bmp::PeerDownReason::RemoteUnexpected });
+                sys.b_gen += 1;
+                sys.srcs[1] = src(2);
+            }
+            SOp::PolicyToggle => {
+                sys.policy_on = !sys.policy_on;
+                sys.tables.import_policy.store(if sys.policy_on { Some(reject_all_import()) } else { None });
+            }
+            SOp::SoftResetIn => sys.tables.soft_reset_in(sys.srcs[0].remote_addr),
+            SOp::StartDeferral => {
+                if sys.deferring || sys.ever_deferred || sys.tables.table_state(Family::IPV4).num_destination != 0 {
+                    return false;
+                }
+                sys.tables.start_deferral_families(&[Family::IPV4]);
+                sys.deferring = true;
+                sys.ever_deferred = true;
+            }
+            SOp::EndDeferral => {
+                if !sys.deferring {
+                    return false;
+                }
+                sys.tables.end_deferral_families(&[Family::IPV4]);
+                sys.deferring = false;
+            }
+            SOp::Subscribe => {
+                if sys.sub.is_some() {
+                    return false;
+                }
+                sys.sub = Some(sys.tables.subscribe(true));
+                sys.pre.clear();
+                sys.post.clear();
+            }
+            SOp::Unsubscribe => {
+                let Some(sub) = sys.sub.take() else { return false };
+                sys.tables.unsubscribe(sub.id);
+                sys.pre.clear();
+                sys.post.clear();
+            }
+        }
+        let mut cur = Vec::new();
+        if let Some(sub) = sys.sub.as_mut() {
+            let f = fold_into(&mut sub.rx, &mut sys.pre, &mut sys.post);
+            let (pre, post) = rib(&sys.tables);
+            let kind = name.split('(').next().unwrap_or("").to_string();
+            if pre != sys.pre {
+                cur.push((format!("C18/seq/adj-rib-in-pre/{kind}"), format!("after {name}: the subscriber's pre-policy view {:?} differs from the RIB's {:?}; events of this step: {}", sys.pre.keys().collect::<Vec<_>>(), pre.keys().collect::<Vec<_>>(), f.join(","))));
+            }
+            if post != sys.post {
+                cur.push((format!("C18/seq/adj-rib-in-post/{kind}"), format!("after {name}: the subscriber's post-policy view {:?} differs from the RIB's {:?}; events of this step: {}", sys.post.keys().collect::<Vec<_>>(), post.keys().collect::<Vec<_>>(), f.join(","))));
+            }
+        }
+        let mut now = BTreeSet::new();
+        for (sig, what) in cur {
+            let clause = sig.split('/').nth(2).unwrap_or("").to_string();
+            if !sys.broken.contains(&clause) && !now.contains(&clause) {
+                out.push((sig, what));
+            }
+            now.insert(clause);
+        }
+        sys.broken = now;
+        true
+    }
+    fn fingerprint(&self, sys: &SeqSys) -> Vec<u8> {
+        let (pre, post) = rib(&sys.tables);
+        let filtered: Vec<String> = sys.tables.collect_paths(table::TableQuery::Global, Family::IPV4, vec![], true).iter().map(|d| format!("{}:{:?}", d.net, d.paths.iter().map(|p| (p.source.remote_addr, p.filtered)).collect::<Vec<_>>())).collect();
+        format!("{:?}|{:?}|{:?}|{}|{:?}|{:?}|{}|{}|{}|{}|{:?}", pre, post, filtered, sys.sub.is_some(), sys.pre, sys.post, sys.policy_on, sys.deferring, sys.ever_deferred, sys.b_gen, sys.broken).into_bytes()
+    }
+}
+
+/// fold the events currently queued into persistent views; returns a trace of this batch
+fn fold_into(rx: &mut mpsc::UnboundedReceiver<BgpEvent>, pre: &mut BTreeMap<Key, String>, post: &mut BTreeMap<Key, String>) -> Vec<String> {
+    let mut trace = Vec::new();
+    while let Ok(ev) = rx.try_recv() {
+        match ev {
+            BgpEvent::AdjRibIn(c) => {
+                for n in &c.nlris {
+                    let k = (c.source.remote_addr, format!("{}", n.nlri), n.path_id);
+                    trace.push(format!("pre:{}:{}:{}", c.source.remote_addr, n.nlri, if c.attrs.is_some() { "reach" } else { "withdraw" }));
+                    match &c.attrs {
+                        Some(a) => {
+                            pre.insert(k, attr_fp(a));
+                        }
+                        None => {
+                            pre.remove(&k);
+                        }
+                    }
+                }
+            }
+            BgpEvent::AdjRibInPost(c) => {
+                for n in &c.nlris {
+                    let k = (c.source.remote_addr, format!("{}", n.nlri), n.path_id);
+                    trace.push(format!("post:{}:{}:{}", c.source.remote_addr, n.nlri, if c.attrs.is_some() { "reach" } else { "withdraw" }));
+                    match &c.attrs {
+                        Some(a) => {
+                            post.insert(k, attr_fp(a));
+                        }
+                        None => {
+                            post.remove(&k);
+                        }
+                    }
+                }
+            }
+            BgpEvent::PeerDown(d) => {
+                trace.push(format!("peerdown:{}", d.peer_addr));
+                pre.retain(|k, _| k.0 != d.peer_addr);
+                post.retain(|k, _| k.0 != d.peer_addr);
+            }
+            _ => {}
+        }
+    }
+    trace
+}
+
+fn seq_model(px: &(Vec<u8>, Vec<u8>)) -> SeqModel {
+    let mut ops = Vec::new();
+    for peer in 0..2u8 {
+        for pfx in 0..2u8 {
+            if peer == 1 && pfx == 0 {
+                continue;
+            }
+            ops.push(SOp::Insert { peer, pfx, attr: 1 });
+            ops.push(SOp::Remove { peer, pfx });
+        }
+    }
+    ops.push(SOp::Insert { peer: 0, pfx: 0, attr: 2 });
+    ops.extend([SOp::PeerDrop, SOp::PolicyToggle, SOp::SoftResetIn, SOp::StartDeferral, SOp::EndDeferral, SOp::Subscribe, SOp::Unsubscribe]);
+    SeqModel { ops, px: px.clone() }
+}
+
 fn sched_str(x: &sched::Execution) -> String {
     x.points.iter().map(|(en, c, l)| format!("T{}@{}", en[*c], l[*c])).collect::<Vec<_>>().join(" ")
 }
@@ -296,6 +493,15 @@ pub(crate) fn run(replay: Option<&str>) -> Report {
     }
     let scs = scenarios();
     if let Some(case) = replay {
+        if case.starts_with("c18-sequential#") {
+            let m = seq_model(&px);
+            if let Some((_, hist)) = crate::verif::vx::bfs::decode_case(case) {
+                eprintln!("replay {}", crate::verif::vx::bfs::render(&m, &hist));
+                rep.violations_from(crate::verif::vx::bfs::replay(&m, &hist, true));
+            }
+            rep.evaluations = 1;
+            return rep;
+        }
         // "scenario-index#choice,choice,..."
         let mut it = case.splitn(3, '#');
         let si: usize = it.next().and_then(|s| s.parse().ok()).unwrap_or(0);
@@ -413,5 +619,11 @@ pub(crate) fn run(replay: Option<&str>) -> Report {
     }
     rep.distinct_nontrivial = outcomes.len() as u64;
     rep.add("distinct_event_sequences", outcomes.len() as u64);
+    // sequential part: every subscribe / unsubscribe point in a history
+    let before = rep.states;
+    let m = seq_model(&px);
+    let depth = if thorough { 7 } else { 5 };
+    crate::verif::vx::bfs::bfs(&m, &crate::verif::vx::bfs::BfsCfg { max_depth: depth, max_secs: if thorough { 600 } else { 20 }, ..Default::default() }, &mut rep);
+    rep.notes.push(format!("c18-sequential: BFS depth {depth} over insert (accepted / rejected by import policy) / remove / peer drop / soft_reset_in / policy toggle / deferral / subscribe(snapshot) / unsubscribe: {} states; the subscriber's folded view is compared with the RIB after every step", rep.states - before));
     rep
 }
